@@ -380,6 +380,148 @@ func (o *httpObs) c03(ids []string) {
 	}
 }
 
+// c03multi: POST /query with SEVERAL starting entities and small limits, continuations followed: several continuation
+// tokens travel in one request; the union over the start entities must come back, every relation once.
+func (o *httpObs) c03multi(ids []string) {
+	h := o.h
+	var starts []string
+	for _, id := range ids {
+		starts = append(starts, h.URI(id))
+	}
+	for _, pred := range []string{"p", "*"} {
+		for _, inv := range []bool{false, true} {
+			want := map[string]bool{}
+			for e := range h.M.Graph(nil, -1) {
+				if pred != "*" && e.Pred != pred {
+					continue
+				}
+				for _, start := range ids {
+					if !inv && e.Src == start {
+						want[start+"|"+e.Pred+">"+e.Dst] = true
+					}
+					if inv && e.Dst == start {
+						want[start+"|"+e.Pred+">"+e.Src] = true
+					}
+				}
+			}
+			for _, limit := range []int{1, 2} {
+				o.n++
+				q := map[string]interface{}{"startingEntities": starts, "inverse": inv, "limit": limit}
+				if pred == "*" {
+					q["predicate"] = "*"
+				} else {
+					q["predicate"] = h.KeyURI(pred)
+				}
+				got := map[string]int{}
+				pages, failed, maxTokens := 0, false, 0
+				for {
+					b, _ := json.Marshal(q)
+					code, body, pn := o.w.request(http.MethodPost, "/query", string(b))
+					if pn != "" || code != 200 {
+						if strings.Contains(string(body), "could not load predicate") || strings.Contains(string(body), "invalid query startpoint") || strings.Contains(string(body), "not found") {
+							failed = true // unknown predicate / start point: covered by the single-start observation
+							break
+						}
+						o.fail("C03:http:error", fmt.Sprintf("POST /query %s: status %d %s %s", b, code, short(string(body)), pn))
+						failed = true
+						break
+					}
+					var res []json.RawMessage
+					if err := json.Unmarshal(body, &res); err != nil || len(res) < 2 {
+						o.fail("C03:http:shape", "POST /query does not answer [context, relations(, continuations)]: "+short(string(body)))
+						failed = true
+						break
+					}
+					var rels [][]json.RawMessage
+					_ = json.Unmarshal(res[1], &rels)
+					for _, r := range rels {
+						if len(r) != 3 {
+							continue
+						}
+						var st, p string
+						_ = json.Unmarshal(r[0], &st)
+						_ = json.Unmarshal(r[1], &p)
+						e := &server.Entity{}
+						_ = json.Unmarshal(r[2], e)
+						got[h.AbsID(st)+"|"+h.AbsKey(p)+">"+h.AbsID(e.ID)]++
+					}
+					var conts []string
+					if len(res) > 2 {
+						_ = json.Unmarshal(res[2], &conts)
+					}
+					if len(conts) > maxTokens {
+						maxTokens = len(conts)
+					}
+					if len(conts) == 0 {
+						break
+					}
+					q = map[string]interface{}{"continuations": conts, "limit": limit}
+					pages++
+					if pages > 60 {
+						o.fail("C03:http:loop", "the continuation chain of a query with several starting entities does not terminate")
+						failed = true
+						break
+					}
+				}
+				if failed {
+					continue
+				}
+				same := len(got) == len(want)
+				for k, n := range got {
+					if !want[k] || n != 1 {
+						same = false
+					}
+				}
+				if !same {
+					dir := "out"
+					if inv {
+						dir = "in"
+					}
+					var gl, wl []string
+					for k, n := range got {
+						gl = append(gl, fmt.Sprintf("%s x%d", k, n))
+					}
+					for k := range want {
+						wl = append(wl, k)
+					}
+					sort.Strings(gl)
+					sort.Strings(wl)
+					clause := fmt.Sprintf("C03:http:multi-start:%s/%s:limit=%d", pred, dir, limit)
+					if inv && pred == "*" {
+						known := true
+						for _, start := range ids {
+							g1, w1 := map[string]int{}, map[string]bool{}
+							for k, n := range got {
+								if strings.HasPrefix(k, start+"|") {
+									g1[strings.TrimPrefix(k, start+"|")] = n
+								}
+							}
+							for k := range want {
+								if strings.HasPrefix(k, start+"|") {
+									w1[strings.TrimPrefix(k, start+"|")] = true
+								}
+							}
+							eq := len(g1) == len(w1)
+							for k, n := range g1 {
+								if !w1[k] || n != 1 {
+									eq = false
+								}
+							}
+							if !eq && !h.KFWildcardIncoming(start, nil, g1, w1) {
+								known = false
+							}
+						}
+						if known {
+							clause = "C03:KF-incoming-wildcard-multipred:http:" + clause
+						}
+					}
+					o.fail(clause, fmt.Sprintf("POST /query with starting entities %v, %s/%s, limit %d (following continuations, up to %d tokens per request) returns %v; the graph of latest versions gives %v", ids, pred, dir, limit, maxTokens, gl, wl))
+				}
+			}
+		}
+	}
+}
+
 // c02rev: GET changes?reverse=true with every limit, tokens followed: the feed backwards, nothing skipped or repeated.
 func (o *httpObs) c02rev() {
 	h := o.h
@@ -649,6 +791,7 @@ func httpStoreReplay(task engine.SeqTask) (res engine.SeqResult) {
 			o.c02js()
 		case "c03":
 			o.c03(p.IDs)
+			o.c03multi(p.IDs)
 			o.c03js(p.IDs)
 		}
 	}
